@@ -118,3 +118,7 @@ package edge
 //@   trusted
 //@   modifies nothing
 //@   ensures result != nil && result != recv && !gfi(result, mutated, bool)
+
+//@ func BatchPointFromPoint
+//@   trusted
+//@   pure
